@@ -1,4 +1,5 @@
 import CoxeterVerif.Lemmas.Families
+import Mathlib.Tactic.LinearCombination
 /-! Helper lemmas for C17: the regular n-gon of `_make_ngon` and the uniform prism. -/
 open Scalar
 set_option maxRecDepth 4000
@@ -66,8 +67,11 @@ theorem ngon_cross_step (n : Nat) (z area angle : ℝ) (k : Nat) :
   simp only [ngonVertex_real]
   have h : ((k + 1 : ℕ) : ℝ) * delta n + angle = (k * delta n + angle) + delta n := by
     push_cast; ring
-  rw [h, Real.sin_add, Real.cos_add]
-  nlinarith [Real.sin_sq_add_cos_sq (k * delta n + angle)]
+  rw [h]
+  generalize (k:ℝ) * delta n + angle = θ
+  rw [Real.sin_add, Real.cos_add]
+  linear_combination (ngonScale n area * ngonScale n area * Real.sin (delta n)) *
+    (Real.sin_sq_add_cos_sq θ)
 
 /-- the vertex function is `n`-periodic -/
 theorem ngonVertex_periodic {n : Nat} (hn : 3 ≤ n) (z area angle : ℝ) (k : Nat) :
@@ -90,8 +94,13 @@ theorem ngon_edge_sq (n : Nat) (z area angle : ℝ) (k : Nat) :
   simp only [dist2, V3.normSq, V3.dot, V3.sub_x, V3.sub_y, V3.sub_z, ngonVertex_real]
   have h : ((k + 1 : ℕ) : ℝ) * delta n + angle = (k * delta n + angle) + delta n := by
     push_cast; ring
-  rw [h, Real.sin_add, Real.cos_add]
-  nlinarith [Real.sin_sq_add_cos_sq (k * delta n + angle), Real.sin_sq_add_cos_sq (delta n)]
+  rw [h]
+  generalize (k:ℝ) * delta n + angle = θ
+  have hδ : Real.cos (delta n) = Real.cos (θ + delta n) * Real.cos θ + Real.sin (θ + delta n) * Real.sin θ := by
+    rw [← Real.cos_sub]; congr 1; ring
+  linear_combination (ngonScale n area * ngonScale n area) * (Real.sin_sq_add_cos_sq θ)
+    + (ngonScale n area * ngonScale n area) * (Real.sin_sq_add_cos_sq (θ + delta n))
+    + 2 * (ngonScale n area * ngonScale n area) * hδ
 
 /-! ### shoelace sum over a run of consecutive vertices -/
 
@@ -100,7 +109,7 @@ theorem shoelace_go_range' (f : Nat → V3 ℝ) (v0 : V3 ℝ) (K : ℝ)
     shoelace.go v0 ((List.range' s (m + 1)).map f)
       = m * K + ((f (s + m)).x * v0.y - v0.x * (f (s + m)).y) := by
   induction m generalizing s with
-  | zero => simp [List.range', shoelace.go, Scalar.lit]
+  | zero => simp [List.range', shoelace.go]
   | succ m ih =>
     have : List.range' s (m + 1 + 1) = s :: List.range' (s + 1) (m + 1) := by
       simp [List.range'_succ]
